@@ -17,7 +17,7 @@ Definition Reqb (a b : R) : bool := if Req_EM_T a b then true else false.
 
 (** the real interpretation of the leaves; [c], [Z0] and the parallel-plates constructor stay
     parameters *)
-Definition ER (c Z0 : R) (PP : Z -> R -> R -> R -> list creal) : Leaves RF :=
+Definition ER (c Z0 : R) (PP : Z -> R -> R -> R -> Z -> creal) : Leaves RF :=
   mkLeaves RF rpow sqrt ln Rabs PI c Z0 Rltb Rleb Reqb cr_add PP.
 
 Lemma fposR p : @fpos RF p = IZR (Zpos p).
@@ -41,7 +41,7 @@ Qed.
 
 Section R.
   Variables c Z0 : R.
-  Variable PP : Z -> R -> R -> R -> list creal.
+  Variable PP : Z -> R -> R -> R -> Z -> creal.
   Notation E := (ER c Z0 PP).
 
   Lemma IZR_pred_nz n : (2 <= n)%Z -> IZR (n - 1) <> 0.
@@ -51,7 +51,7 @@ Section R.
   Theorem gen_fs_R n f_rev f_max : (2 <= n)%Z -> f_rev <> 0 ->
     FreeSpaceCSR_ctor RF E n f_rev f_max = fs_vec n (f_max / f_rev / IZR (n - 1)).
   Proof.
-    intros Hn Hf. rewrite (gen_fs_vec RF E); [|exact Hf|rewrite fzR; apply IZR_pred_nz; exact Hn].
+    intros Hn Hf. rewrite (gen_fs_vec RF E); [|lia|exact Hf|rewrite fzR; apply IZR_pred_nz; exact Hn].
     unfold sp_fs_vec, fs_vec. apply push_loop_ext. intros i _.
     unfold sp_fs_sample, sp_fs_Z0, sp_delta, fs_sample, cmulr, cbrt, fs_re, fs_im, three. cbn [fst snd].
     rewrite !fzR. change (l_pw E) with rpow.
@@ -65,7 +65,7 @@ Section R.
   Proof.
     intros Hn Hf Hs Hb Hc.
     rewrite (gen_rw_vec RF E); try assumption;
-      [|rewrite fzR; apply IZR_pred_nz; exact Hn|exact PI_neq0].
+      [|lia|rewrite fzR; apply IZR_pred_nz; exact Hn|exact PI_neq0].
     unfold sp_rw_vec, rw_vec. apply push_loop_ext. intros i _.
     unfold sp_rw_sample, sp_rw_Z1, sp_delta, rw_sample, rw_Z1, two. cbv zeta.
     rewrite !fzR. reflexivity.
@@ -157,7 +157,7 @@ Section R.
   Theorem gen_factory_R n fmax R_bend frev gap use_csr s xi rc file :
     (0 <= n)%Z -> R_bend <> 0 -> frev <> 0 ->
     makeImpedance RF E n fmax R_bend frev gap use_csr s xi rc file =
-    sp_factory_with E PP (FreeSpaceCSR_ctor RF E) (ResistiveWall_ctor RF E) (CollimatorImpedance_ctor RF E)
+    sp_factory_with E (ParallelPlatesCSR_ctor RF E) (FreeSpaceCSR_ctor RF E) (ResistiveWall_ctor RF E) (CollimatorImpedance_ctor RF E)
                     n fmax R_bend frev gap use_csr s xi rc file.
   Proof. intros. unfold makeImpedance. apply gen_factory_with_R; assumption. Qed.
 
@@ -200,7 +200,7 @@ Section R.
       collimator needs [0 < r_coll < |gap/2|], which makes [ln(|gap/2|/r_coll)] positive. *)
   Theorem gen_factory_passive n fmax R_bend frev gap use_csr s xi rc file v :
     (2 <= n)%Z -> 0 < c -> 0 < Z0 -> R_bend <> 0 -> 0 < frev ->
-    (forall a b g, Forall passive (PP n a b g)) ->
+    (forall a b g i, (1 <= i <= n / 2)%Z -> passive (PP n a b g i)) ->
     (forall d, file = Some d -> Forall passive d) ->
     makeImpedance RF E n fmax R_bend frev gap use_csr s xi rc file = Some v -> Forall passive v.
   Proof.
@@ -210,7 +210,9 @@ Section R.
     injection Ev as <-.
     apply (pointwise_sum_P creal cr0 cr_add passive passive0 passive_add).
     unfold g_parts. repeat (apply Forall_app; split).
-    - destruct (g_sel_pp E gap use_csr); constructor; [apply Hpp|constructor].
+    - destruct (g_sel_pp E gap use_csr); constructor; [|constructor].
+      rewrite (gen_pp_vec RF E) by lia. unfold sp_pp_vec.
+      apply (pp_vec_P creal cr0 cr_add passive passive0 passive_add). intros i Hi. apply Hpp. exact Hi.
     - destruct (g_sel_fs E gap use_csr); constructor; [|constructor].
       rewrite gen_fs_R; [apply fs_vec_passive|exact Hn|].
       change (sp_f0 E R_bend) with (c / ((1 + 1) * PI * R_bend)).
